@@ -241,6 +241,9 @@ namespace ip {
 		m_next_incoming_seq = 0;
 		m_next_outgoing_seq = 0;
 		m_last_drop_seq = 0;
+		m_incoming_queue.clear();
+		m_reorder_buffer.clear();
+		m_outgoing_packets.clear();
 
 		cancel(ec);
 
